@@ -209,8 +209,10 @@ def check_optimal(case):
                  on_error='violation', sig=sig + ':raises')
     x = a[:, keep]
     best, opt = cref.analytic_upper(x, method)
-    if not np.isfinite(best):
-        raise Reject('undefined optimum', 'degenerate')
+    try:
+        cref.ceilings(np.nan_to_num(a), cref.groups_of(case['groups']), method, n=n, keep=keep)
+    except cref.Degenerate as e:
+        raise Reject(str(e), 'degenerate:zero-pool')
     require_close(up, best, 'upper noise ceiling (%s, %d RDMs, %d of %d entries) vs the analytic '
                   'maximum of the mean similarity over all vectors' % (method, len(x), keep.sum(),
                                                                       keep.size),
@@ -269,10 +271,8 @@ def check_loo(case):
     groups = cref.groups_of(case['groups'])
     try:
         want_lo, want_up = cref.ceilings(np.nan_to_num(a), groups, method, n=n, keep=keep)
-    except ZeroDivisionError:
-        raise Reject('pooled vector vanishes', 'degenerate')
-    if not (np.isfinite(want_lo) and np.isfinite(want_up)):
-        raise Reject('undefined similarity', 'degenerate')
+    except cref.Degenerate as e:
+        raise Reject(str(e), 'degenerate:zero-pool')
     what = 'boot_noise_ceiling(%s), %d RDMs in %d groups, %d of %d entries' % (
         method, len(a), len(groups), keep.sum(), keep.size)
     require_close(lo, want_lo, what + ': lower bound vs explicit leave-one-group-out',
@@ -319,8 +319,10 @@ def check_invariance(case):
         b = b + np.array(case['shifts'], dtype=float).reshape(-1, 1)
     lo2, up2 = lib(boot_noise_ceiling, make_rdms(b, case['groups']), method=method,
                    rdm_descriptor='grp', on_error='violation', sig=sig + ':raises')
-    if not (np.isfinite(lo) and np.isfinite(up)):
-        raise Reject('undefined ceiling', 'degenerate')
+    try:    # a vanishing leave-one-out pool has no defined direction: outside the domain
+        cref.ceilings(np.nan_to_num(a), cref.groups_of(case['groups']), method, n=n, keep=keep)
+    except cref.Degenerate as e:
+        raise Reject(str(e), 'degenerate:zero-pool')
     tol = 1e-9 if max(case['shifts']) < 100 or method in cref.COS_TYPES else 1e-7
     what = 'boot_noise_ceiling(%s) after per-RDM %s' % (
         method, 'positive affine maps' if method in cref.CORR_TYPES else 'positive rescaling')
@@ -338,13 +340,29 @@ def classify_invariance(case):
 # ---------------------------------------------------------------------------
 # 4. cross-validated ceiling recomputed from the fold indices
 
+def no_constant_triangle(rows, n):
+    """construction instead of rejection: whatever >= 3 conditions a fold selects, the restricted
+    RDM must not be constant; a constant triangle gets one side raised above the row maximum"""
+    idx = {pr: j for j, pr in enumerate(ref.pairs(n))}
+    out = []
+    for r in rows:
+        r = [float(x) for x in r]
+        for (a, b, c) in itertools.combinations(range(n), 3):
+            tri = [r[idx[(a, b)]], r[idx[(a, c)]], r[idx[(b, c)]]]
+            mx = max(abs(x) for x in r)
+            if max(tri) - min(tri) < 0.0625 * max(1.0, mx):
+                r[idx[(a, b)]] = 1.0 + 2 * mx
+        out.append(r)
+    return out
+
+
 @st.composite
 def cv_case(draw):
     n = draw(st.integers(6, 9))
     p = ref.n_pairs(n)
     k = draw(st.integers(2, 6))
     kind = draw(st.sampled_from(['pos', 'float', 'smallpos']))
-    rows = draw(data_rows(k, p, kind))
+    rows = no_constant_triangle(draw(data_rows(k, p, kind)), n)
     grouped = draw(st.booleans()) and k >= 4
     if grouped:
         g = draw(st.lists(st.integers(0, 2), min_size=k, max_size=k))
@@ -389,13 +407,15 @@ def check_cv(case):
         pred_lo = cref.pool(tr, method)
         pred_up = ref.restrict_vector(full_pool, n, cond)
         try:
+            cref.check_pooled(pred_lo, method)
+            cref.check_pooled(pred_up, method)
             lows.append(np.mean([cref.similarity(method, pred_lo, t, v) for t in te]))
             ups.append(np.mean([cref.similarity(method, pred_up, t, v) for t in te]))
-        except ZeroDivisionError:
-            raise Reject('pooled vector vanishes', 'degenerate')
+        except cref.Degenerate as e:
+            raise Reject(str(e), 'degenerate:zero-pool')
     want_lo, want_up = float(np.mean(lows)), float(np.mean(ups))
     if not (np.isfinite(want_lo) and np.isfinite(want_up)):
-        raise Reject('undefined similarity', 'degenerate')
+        raise Reject('undefined similarity', 'degenerate:zero-pool')
     lo, up = lib(cv_noise_ceiling, rd, ceil_set, test_set, method=method, pattern_descriptor='index',
                  on_error='violation', sig=sig + ':raises')
     what = 'cv_noise_ceiling(%s), %d RDMs, k_rdm=%d, k_pattern=%d' % (method, k, case['k_rdm'],
